@@ -451,10 +451,38 @@ def judgeState (s : St) (es : List Ent) (a : Ans) : String :=
          then [("when_possible_distinct_bounds", !(hasEqualNeighbours d.allBounds))] else []) ++
         -- mean-valued classes are explored where none of them fell back to the midpoint of its bounds
         (if wc then exploreClauses d eqB (!f.dd.median && eqB && noMeanFallback par f.dd) rs (eqB && f.dd.median && !fallback && rescaledB par f.dd) a.xp a.xe else []))
-    | .leaf (.const _) => firstFail (compoundClauses [] a.main ++ [("n_classes", a.main.dist.length == 1 && a.main.n == 1)])
-    | .leaf (.simple ss) => firstFail (compoundClauses [] a.main ++
+    | .leaf (.const _) =>
+      -- theorem `constant_class_is_value`: the one class of a constant distribution is its `value`
+      -- parameter with probability one, after every operation (the value is read from the
+      -- implementation's own parameter dump)
+      let pv := (a.qs.headD []).find? (fun q => hexName q.name == "value")
+      firstFail (compoundClauses [] a.main ++ [("n_classes", a.main.dist.length == 1 && a.main.n == 1),
+        ("constant_class_is_value", match pv, a.main.dist with
+          | some q, [(k, p)] => same k q.value && same p 1
+          | _, _ => false)])
+    | .leaf (.simple ss) =>
+      -- theorems `simple_restrict_keeps_classes`, `compound_normalised_simple_history`: the class values of
+      -- a user-specified distribution are its `V<i>` parameters (as long as these are further apart than
+      -- the precision of the map: otherwise the separation loop moves them) — after parameter updates,
+      -- restrictions, median toggles alike
+      let vs := ((a.qs.headD []).filter (fun q => (hexName q.name).startsWith "V")).map (·.value)
+      let sorted := vs.foldl (fun acc v => (acc.filter (· ≤ v)) ++ [v] ++ (acc.filter (fun x => !(x ≤ v)))) ([] : List Float)
+      let apart := (pairs sorted).all (fun ab => ab.2 - ab.1 > 2 * a.main.prec && ab.2 != ab.1)
+      firstFail (compoundClauses [] a.main ++
         [("n_classes", a.main.dist.length == ss.vs.length && a.main.n == ss.vs.length),
-         ("values_strict_mono", valuesStrictMono a.main), ("bounds_monotone_in_domain", nondecr a.main.bounds)])
+         ("values_strict_mono", valuesStrictMono a.main), ("bounds_monotone_in_domain", nondecr a.main.bounds),
+         ("simple_classes_are_parameters", !apart || sameL a.main.cats sorted)])
+    | .invar st =>
+      -- `invariant_in_own_class` (clause 4 of the statement for the class the compound adds): the
+      -- invariant is a class value and lies in its own class interval `[allBounds[k], allBounds[k+1]]`
+      let d := a.main
+      let inOwn := match d.cats.findIdx? (fun k => same k st.inv) with
+        | some k => (match d.allBounds[k]?, d.allBounds[k + 1]? with
+                     | some lo, some hi => lo ≤ st.inv && st.inv ≤ hi
+                     | _, _ => false)
+        | none => false
+      firstFail (compoundClauses a.subs a.main ++ [("values_strict_mono", valuesStrictMono a.main),
+        ("invariant_in_own_class", inOwn)])
     | _ => firstFail (compoundClauses a.subs a.main ++ [("values_strict_mono", valuesStrictMono a.main)])
 
 /-- clauses about the parameters and the second object (BppProofs/Props/C09Shared.lean), on the
